@@ -38,6 +38,7 @@ import (
 	"github.com/kklash/bitcoinlib/rpc"
 	"github.com/kklash/bitcoinlib/taproot"
 	"github.com/kklash/bitcoinlib/tx"
+	"github.com/kklash/bitcoinlib/varint"
 	"github.com/kklash/bitcoinlib/wif"
 )
 
@@ -180,6 +181,14 @@ var actions = map[string]func() string{
 		id, _ := t.Id(false)
 		return fmt.Sprintf("%s %x %d", id, t.Bytes(), t.VSize())
 	},
+	"txparsewide": func() string {
+		t, err := tx.FromBytes(wideTx(3))
+		if err != nil {
+			return "err " + err.Error()
+		}
+		id, _ := t.Id(false)
+		return fmt.Sprintf("%s %d %d", id, len(t.Inputs[0].Script), t.VSize())
+	},
 	"sighash": func() string {
 		raw, _ := hex.DecodeString(sampleTx)
 		t, err := tx.FromBytes(raw)
@@ -252,6 +261,19 @@ func stormKey(i int) []byte {
 	return k
 }
 
+// a transaction whose input script, witness item and output script are 253 bytes or longer
+func wideTx(i int) []byte {
+	h := det(fmt.Sprintf("wide-prev-%d", i), 32)
+	var prev [32]byte
+	copy(prev[:], h)
+	t := &tx.Tx{Version: 2,
+		Inputs:    []*tx.Input{{PrevOut: &tx.PrevOut{Hash: prev, Index: uint32(i)}, Script: det(fmt.Sprintf("wide-script-%d", i), 253+i*67), Sequence: 0xfffffffe}},
+		Outputs:   []*tx.Output{{Value: uint64(1000 + i), Script: det(fmt.Sprintf("wide-out-%d", i), 300+i*1001)}},
+		Witnesses: []tx.Witness{{det(fmt.Sprintf("wide-wit-%d", i), 70000+i*13)}},
+	}
+	return t.Bytes()
+}
+
 func buildStorm() {
 	add := func(name string, f func() string) { stormItems = append(stormItems, stormItem{name: name, f: f}) }
 	for i := 0; i < 5; i++ {
@@ -288,6 +310,22 @@ func buildStorm() {
 		ent := det(fmt.Sprintf("storm-ent-%d", i), 16+4*i)
 		if words, err := bip39.EncodeToWords(ent); err == nil {
 			add(fmt.Sprintf("bip39.DecodeWords(%d)", i), func() string { e, err := bip39.DecodeWords(words); return fmt.Sprintf("%x %v", e, err) })
+		}
+	}
+	// parsing of data whose length prefixes are 3, 5 and 9 bytes wide, a different value in every item
+	for i := 0; i < 5; i++ {
+		raw := wideTx(i)
+		add(fmt.Sprintf("tx.FromBytes(wide%d)", i), func() string {
+			t, err := tx.FromBytes(raw)
+			if err != nil {
+				return "err " + err.Error()
+			}
+			id, _ := t.Id(false)
+			return fmt.Sprintf("%s %d %d", id, len(t.Inputs[0].Script), len(t.Bytes()))
+		})
+		for _, v := range []uint64{0xfd + uint64(i)*911, 0x10000 + uint64(i)*70001, 0x100000000 + uint64(i)*0x0123456789} {
+			enc := varint.VarInt(v).Bytes()
+			add(fmt.Sprintf("varint.FromBytes(%d)", v), func() string { d, err := varint.FromBytes(enc); return fmt.Sprint(uint64(d), err) })
 		}
 	}
 	// the value of every call when run alone
